@@ -104,7 +104,7 @@ func (w *World) TickOf(t time.Time) int {
 	if x > FarFuture {
 		return FarFuture
 	}
-	if x < FarPast {
+	if x < Never { // anything before "never" is just "far past" (e.g. the taint value "0")
 		return FarPast
 	}
 	return int(x)
@@ -265,7 +265,7 @@ func (w *World) taintValue(t Taint, id string) string {
 	if !t.Ok {
 		return "not-a-number-" + id
 	}
-	if t.At <= FarPast {
+	if t.At <= Never {
 		return "0"
 	}
 	if t.At >= FarFuture {
@@ -493,7 +493,8 @@ func Build(seed int64, s *State) (*World, error) {
 		c := gs.Ctl
 		w.C.VerifSetState(g, controller.VerifGroupState{IsLocked: c.IsLocked, LockSet: c.LockAt > Never, LockAge: time.Duration(w.Now-c.LockAt) * Tick,
 			Requested: c.Requested, ScaleDelta: c.Delta, LastOutSet: c.LastOut > Never, LastOutAge: time.Duration(w.Now-c.LastOut) * Tick,
-			CPUCapMilli: int64(c.CapCpu) * CpuUnit, MemCapBytes: int64(c.CapMem) * MemUnit, TaintTracker: c.Tracker})
+			CPUCapMilli: int64(c.CapCpu) * CpuUnit, MemCapBytes: int64(c.CapMem) * MemUnit, TaintTracker: c.Tracker,
+			SetBounds: gs.Cfg.Auto, MinNodes: c.MinEff, MaxNodes: c.MaxEff})
 	}
 	return w, nil
 }
